@@ -956,3 +956,10 @@ impl CKBProtocolHandler for Relayer {
         );
     }
 }
+
+/// verif-hooks: public wrapper over the crate-private `CompactBlockVerifier::verify`
+/// (prefilled order / short-id uniqueness checks run before `reconstruct_block`).
+#[cfg(feature = "verif-hooks")]
+pub fn verif_compact_block_verify(block: &packed::CompactBlock) -> Status {
+    compact_block_verifier::CompactBlockVerifier::verify(block)
+}
